@@ -8,9 +8,12 @@
    have not been deleted (DeleteLast removes the last Node and everything encoded after it); `batch_from ctx0 (live ops)`
    = what a fresh encoder produces for them; `spec_output` = header (once a node has been encoded) ++ that.
    `step` is the code as it is (delete_last_node leaves the context alone), `step_fixed` the repaired code.
-   What ties `enc_node` to the real parse_node is the harness (props/C17/check.py), not a theorem. *)
+   The last part instantiates the section with the REAL per-node WBXML encoding, Model/EncWbxml.v (Model/FlowEnc.v,
+   Proofs/FlowEncProofs.v): context = (tag code page, attribute code page, current tag), and the premise that the
+   per-node encoding is a function of (context, node) is a theorem there.  What ties EncWbxml to wbxml_encoder.c is the
+   harness (props/C06 for the batch encoder, props/C17/check.py for the flow state machine). *)
 From Coq Require Import List NArith Bool.
-From Wbxml Require Import Model.Flow Proofs.FlowProofs.
+From Wbxml Require Import Model.Codec Model.EncWbxml Model.Flow Model.FlowEnc Proofs.FlowProofs Proofs.FlowEncProofs.
 Import ListNotations.
 
 (* --- the repaired code: the full theorem, for every per-node encoder and every history ------------------ *)
@@ -68,4 +71,79 @@ Example C17_ex_safe :
               Node (CElt 0 5 []); EltEnd (CElt 0 45 []) true; GetOutput]%N in
   c_safe ops = true /\ c_get_output (c_run [9]%N ops) = c_spec_output [9]%N ops /\
   c_get_output (c_run [9]%N ops) = [9; 109; 0; 1; 83; 3; 97; 0; 1; 0; 0; 5; 1]%N.
+Proof. vm_compute. auto. Qed.
+
+(* --- the real WBXML encoder (Model/EncWbxml.v) as the per-node encoder ----------------------------------- *)
+
+(* FRAME.  With the string table disabled (flow mode switches it off) the encoding of a node neither reads nor writes
+   the string table: started with any other table it does the same and hands that table back untouched *)
+Theorem C17_encwbxml_node_frame : forall tbl e, e_use_strtbl e = false -> forall n parent st t k,
+  parse_node tbl e parent n (set_strtbl st t k) =
+  match parse_node tbl e parent n st with EOk (b, st') => EOk (b, set_strtbl st' t k) | EErr c => EErr c end.
+Proof. exact parse_node_frame. Qed.
+Print Assumptions C17_encwbxml_node_frame.
+
+(* BALANCE.  A node that is encoded successfully leaves the CDATA state as it found it: entered outside a CDATA section
+   (in_cdata = FALSE, cdata = NULL) it ends outside; so a whole-node encode can never leave in_cdata stale *)
+Theorem C17_encwbxml_node_cdata_balance : forall tbl e, e_use_strtbl e = false -> forall n parent st b st',
+  parse_node tbl e parent n st = EOk (b, st') ->
+  (in_cdata st = false /\ cdata st = None -> in_cdata st' = false /\ cdata st' = None) /\
+  (in_cdata st = true /\ cdata st <> None -> in_cdata st' = true /\ cdata st' <> None).
+Proof. exact parse_node_balance. Qed.
+Print Assumptions C17_encwbxml_node_cdata_balance.
+
+(* hence the premise of the parametric theorems: the per-node encoding is a function of (context, node), where the
+   context is (tagCodePage, attrCodePage, current_tag).  current_tag IS read (parse_text on a detached text node:
+   binary-flagged current tag), so it belongs to what delete_last_node must restore, with the two code pages *)
+Theorem C17_encwbxml_node_function_of_context : forall tbl e, e_use_strtbl e = false -> forall parent n st1 st2,
+  (in_cdata st1 = false /\ cdata st1 = None) -> (in_cdata st2 = false /\ cdata st2 = None) ->
+  ctx_of st1 = ctx_of st2 ->
+  match parse_node tbl e parent n st1, parse_node tbl e parent n st2 with
+  | EOk (b1, s1), EOk (b2, s2) =>
+    b1 = b2 /\ ctx_of s1 = ctx_of s2 /\
+    (in_cdata s1 = false /\ cdata s1 = None) /\ (in_cdata s2 = false /\ cdata s2 = None) /\
+    strtbl s1 = strtbl st1 /\ strtbl_len s1 = strtbl_len st1 /\ strtbl s2 = strtbl st2 /\ strtbl_len s2 = strtbl_len st2
+  | EErr c1, EErr c2 => c1 = c2
+  | _, _ => False
+  end.
+Proof. exact enc_node_function_of_context. Qed.
+Print Assumptions C17_encwbxml_node_function_of_context.
+
+(* every history, raw element starts and ends included: the repaired flow encoder holds the header followed by the
+   batch encoding (by the same EncWbxml functions, fresh context) of the fragments that remain *)
+Theorem C17_flow_equals_batch_encwbxml_fragments : forall tbl e ops,
+  w_get_output (w_run_fixed tbl e ops) = w_spec_output tbl e ops.
+Proof. exact (fun tbl e => fixed_output wctx node wctx0 (w_enc_node tbl e) (w_enc_start e) w_enc_end (w_header e)). Qed.
+Print Assumptions C17_flow_equals_batch_encwbxml_fragments.
+
+(* histories whose remaining fragments are whole nodes: header ++ EncWbxml's batch body (parse_node over the chain of
+   the remaining nodes, fresh encoder), whenever the batch encoder accepts them *)
+Theorem C17_flow_equals_batch_encwbxml : forall tbl e, e_use_strtbl e = false -> forall ops ns b st',
+  w_live ops = map (@FNode node) ns ->
+  parse_nodes tbl e None ns (init_est [] 0) = EOk (b, st') ->
+  w_get_output (w_run_fixed tbl e ops) =
+  (if seen node (srun node ops) then fill_header e (init_est [] 0) else []) ++ b.
+Proof. exact flow_equals_batch_encwbxml. Qed.
+Print Assumptions C17_flow_equals_batch_encwbxml.
+
+(* ... which is the document wbxml_tree_to_wbxml produces for those nodes with the string table switched off *)
+Theorem C17_flow_equals_wbxml_tree_to_wbxml : forall tbl l o ops ns doc,
+  o_use_strtbl o = false ->
+  w_live ops = map (@FNode node) ns -> ns <> [] ->
+  enc_wbxml tbl l o ns = EOk doc ->
+  w_get_output (w_run_fixed tbl (enc_env l o) ops) = doc.
+Proof. exact flow_equals_enc_wbxml. Qed.
+Print Assumptions C17_flow_equals_wbxml_tree_to_wbxml.
+
+(* non-vacuity on the real encoder: <tok 5 page 0/>, <tok 19 page 1>b</>, delete, <tok 7 page 1/>.  Unrepaired: the
+   SWITCH_PAGE before the last element is missing; repaired = wbxml_tree_to_wbxml of the two remaining elements *)
+Example C17_ex_encwbxml_d16 :
+  let l0 := mk_blang 0 1 None None None None None in
+  let e0 := flow_env l0 false false 3 in
+  let ops := [Node (NElt (TagTok 0 5 0 []) [] []); Node (NElt (TagTok 1 19 0 []) [] [NText [98]]); DeleteLast;
+              Node (NElt (TagTok 1 7 0 []) [] []); GetOutput]%N in
+  w_get_output (w_run [] e0 ops) = [3; 1; 106; 0; 5; 7]%N /\
+  w_get_output (w_run_fixed [] e0 ops) = [3; 1; 106; 0; 5; 0; 1; 7]%N /\
+  enc_wbxml [] l0 (mk_opts 3 false true false) [NElt (TagTok 0 5 0 []) [] []; NElt (TagTok 1 7 0 []) [] []]%N
+    = EOk [3; 1; 106; 0; 5; 0; 1; 7]%N.
 Proof. vm_compute. auto. Qed.
